@@ -21,7 +21,10 @@ CHECK = 'c19_check'
 SHOW = 'c19_show'
 SHARD = 75
 RULE = ('layout cases = (poset as comparison matrix, c, dpth) with calc_levels / fcart / multipartite outputs; '
-        'mover cases = (direction, distinct dyadic points, history of operations) with pos after every step; '
+        'mover cases = (direction, distinct dyadic points in a SHUFFLED dictionary insertion order, load route [constructor / '
+        'pos setter after construction / after a direction assignment / reload of a loaded mover / '
+        'Mover.initialize_pos(poset, fcart|multipartite) on posets stored in arbitrary index order], history of '
+        'operations) with pos and the attribute arrays after every step; '
         'non-trivial = layout: >= 4 elements, >= 2 levels, some level with >= 2 elements and neither a chain '
         'nor an antichain; mover: >= 4 nodes, a level with >= 3 peers and >= 3 operations of >= 2 kinds')
 EXHAUSTIVE = {'thorough': 'layouts: every partial order on <= 4 labelled elements (the empty poset included) (all reflexive-antisymmetric-'
@@ -135,8 +138,38 @@ def run_mover(case):
     from fcapy.visualizer.mover import Mover
 
     def go():
-        pos = {i: (float(Fraction(p[0], p[1])), float(Fraction(p[2], p[3]))) for i, p in enumerate(case['pos'])}
-        m = Mover(pos=pos, direction='v' if case['v'] else 'h')
+        d = 'v' if case['v'] else 'h'
+        route = case.get('route', 'ctor')
+        pos0 = None
+        if route == 'init':
+            # Mover.initialize_pos(poset, layout): the dictionary comes from the layout function itself
+            # (multipartite: in networkx's layer order, not in key order)
+            from fcapy.poset import POSet
+            from fcapy.visualizer.line_layouts import LAYOUTS
+            pc = case['poset']
+            els, leq = leq_of(pc)
+            P = POSet(els, leq_func=leq)
+            kw = {'c': pc['c'][0] / pc['c'][1], 'dpth': pc['dpth']} if case['layout'] == 'fcart' else {}
+            ref = LAYOUTS[case['layout']](POSet(els, leq_func=leq), **kw)
+            pos0 = [frac_pair(ref[i]) for i in range(len(ref))]
+            m = Mover(direction=d)
+            m.initialize_pos(P, case['layout'], **kw)
+        else:
+            vals = [(float(Fraction(p[0], p[1])), float(Fraction(p[2], p[3]))) for p in case['pos']]
+            order = case.get('ins') or list(range(len(vals)))
+            pos = {i: vals[i] for i in order}              # insertion order is part of the case
+            if route == 'ctor':
+                m = Mover(pos=pos, direction=d)
+            elif route == 'setter':
+                m = Mover(direction=d)
+                m.pos = pos
+            elif route == 'dir_then_setter':
+                m = Mover()
+                m.direction = d
+                m.pos = pos
+            else:                                          # 'reload': a loaded mover gets another picture
+                m = Mover(pos={i: (vals[i][1], vals[i][0]) for i in reversed(order)}, direction=d)
+                m.pos = pos
 
         def snap():
             p = m.pos
@@ -162,7 +195,7 @@ def run_mover(case):
             except Exception as e:  # noqa
                 code = op_code(e)
             trace.append([code, snap(), ints()])
-        return trace
+        return {'trace': trace, 'pos0': pos0}
     return list(guarded(go, 20))
 
 
@@ -205,15 +238,16 @@ def to_coq(case, out):
         return ('Build_c19_case 0 %d %s %s %s %s %s %s %s true [] [] [] []'
                 % (len(rel), coq(rel), q(Fraction(case['c'][0], case['c'][1])), zl(case['dpth']),
                    levels, ldict, fc, mu))
-    pos0 = pts([unfrac(p) for p in case['pos']])
+    src0 = out[1]['pos0'] if (out[0] == 'ok' and out[1]['pos0'] is not None) else case.get('pos') or []
+    pos0 = pts([unfrac(p) for p in src0])
     if out[0] == 'ok':
         tr = '[' + '; '.join('(%d, %s)' % (e, pts([unfrac(p) for p in ps]) if ps is not None else '[]')
-                             for e, ps, _ in out[1]) + ']'
+                             for e, ps, _ in out[1]['trace']) + ']'
 
         def ql(vs):
             return '[' + '; '.join(q(Fraction(a, b)) for a, b in vs) + ']'
         ints = '[' + '; '.join('(%s, %s, %s, %s)' % (coq(i[0]), coq(i[1]), ql(i[2]), '[' + '; '.join(ql(r) for r in i[3]) + ']')
-                               for _, _, i in out[1]) + ']'
+                               for _, _, i in out[1]['trace']) + ']'
     else:
         tr = '[(%d, [])]' % ERR_KINDS.get(out[1], 11)
         ints = '[]'
@@ -392,16 +426,48 @@ def random_history(rng, peer_level, n_ops, v):
     return ops
 
 
-def mover_case(peer_level, v, ops, shape=''):
+ROUTES = ['ctor', 'ctor', 'setter', 'dir_then_setter', 'reload']
+
+
+def mover_case(peer_level, v, ops, shape='', ins=None, route='ctor'):
     pos = [fr4(p, l) if v else fr4(l, p) for p, l in peer_level]
-    return {'kind': 'mover', 'v': v, 'pos': pos, 'ops': ops, 'shape': shape}
+    return {'kind': 'mover', 'v': v, 'pos': pos, 'ops': ops, 'shape': shape,
+            'ins': ins if ins is not None else list(range(len(pos))), 'route': route}
 
 
 def random_mover_case(rng, max_n, max_ops):
     pl = random_picture(rng, max_n)
     v = rng.random() < 0.6
     ops = random_history(rng, pl, rng.randint(0, max_ops), v)
-    return mover_case(pl, v, ops, 'random')
+    ins = list(range(len(pl)))
+    if rng.random() < 0.85:
+        rng.shuffle(ins)                    # the dictionary is NOT built in key order
+    return mover_case(pl, v, ops, 'random', ins, rng.choice(ROUTES))
+
+
+def init_mover_case(rng, max_n, max_ops):
+    """load route Mover.initialize_pos(poset, layout) on a poset stored in arbitrary index order;
+    only exact operations (swap / shift / direction) follow: layout coordinates are not dyadic"""
+    for _ in range(20):
+        pc = random_poset_case(rng, max_n)
+        if pc['carrier'] != 'lattice':
+            break
+    else:
+        pc = layout_case('dag', None, closure(3, [(0, 2), (1, 2)]))
+    n = len(pc['rel'])
+    v = rng.random() < 0.6
+    ops = []
+    for _ in range(rng.randint(0, max_ops)):
+        r = rng.random()
+        if r < 0.45:
+            ops.append(['swap', rng.randrange(n), rng.randrange(n)])
+        elif r < 0.9:
+            ops.append(['shift', rng.randrange(n), rng.choice([-3, -2, -1, 0, 1, 2, 3])])
+        else:
+            v2 = rng.random() < 0.5
+            ops.append(['dir', v2])
+    return {'kind': 'mover', 'route': 'init', 'layout': rng.choice(['fcart', 'multipartite', 'multipartite']),
+            'poset': pc, 'v': v, 'ops': ops, 'shape': 'init_' + pc.get('shape', '')}
 
 
 _EXM = None
@@ -441,14 +507,14 @@ def generate(rng, tier):
     exl, exm = exhaustive_layouts(), exhaustive_mover()
     if tier == 'thorough':
         cases += exl + exm
-        n_lay, n_mov, max_n, max_ops = 9000, 9000, 12, 25
+        n_lay, n_mov, max_n, max_ops = 7000, 7000, 12, 25
     else:
         cases += rng.sample(exl, 60) + rng.sample(exm, 60)
         n_lay, n_mov, max_n, max_ops = 500, 500, 8, 8
     for _ in range(n_lay):
         cases.append(random_poset_case(rng, max_n))
-    for _ in range(n_mov):
-        cases.append(random_mover_case(rng, max_n, max_ops))
+    for k in range(n_mov):
+        cases.append(init_mover_case(rng, max_n, max_ops) if k % 5 == 4 else random_mover_case(rng, max_n, max_ops))
     return cases
 
 
@@ -474,6 +540,8 @@ def nontrivial(case):
         lv = _levels_of(rel)
         n = len(rel)
         return n >= 4 and max(lv) >= 1 and max(lv) < n - 1 and any(lv.count(k) >= 2 for k in set(lv))
+    if case.get('route') == 'init':
+        return len(case['poset']['rel']) >= 4 and len(case['ops']) >= 2
     pos = case['pos']
     lvl = [(p[2], p[3]) if case['v'] else (p[0], p[1]) for p in pos]
     kinds = {o[0] for o in case['ops']}
@@ -488,7 +556,11 @@ def stats(case):
             d['n'] = len(rel)
             d['levels'] = max(_levels_of(rel)) + 1 if rel else 0
         return d
-    d = {'kind': 'mover', 'nodes': len(case['pos']), 'n_ops': len(case['ops']), 'dir': 'v' if case['v'] else 'h'}
+    nn = len(case['poset']['rel']) if case.get('route') == 'init' else len(case['pos'])
+    d = {'kind': 'mover', 'nodes': nn, 'n_ops': len(case['ops']), 'dir': 'v' if case['v'] else 'h',
+         'route': case.get('route', 'ctor') + ('_' + case['layout'] if case.get('route') == 'init' else ''),
+         'insertion': 'n/a' if case.get('route') == 'init' else
+                      ('key order' if case.get('ins', sorted(range(nn))) == list(range(nn)) else 'shuffled')}
     for o in case['ops']:
         d['op_' + o[0]] = True
     return d
@@ -502,6 +574,10 @@ def shrink(case):
             c = dict(case)
             c['ops'] = ops[:i] + ops[i + 1:]
             out.append(c)
+        if case.get('route') == 'init':
+            return out
+        if case.get('route', 'ctor') != 'ctor':
+            out.append(dict(case, route='ctor'))
         n = len(case['pos'])
         if n > 1:
             for k in range(n):
@@ -509,6 +585,7 @@ def shrink(case):
                     continue
                 c = dict(case)
                 c['pos'] = case['pos'][:k] + case['pos'][k + 1:]
+                c['ins'] = [x - 1 if x > k else x for x in case.get('ins', list(range(n))) if x != k]
 
                 def ren(o):
                     if o[0] == 'dir':
